@@ -5,6 +5,7 @@ import (
 	"net"
 	"net/netip"
 
+	"github.com/IrineSistiana/mosproxy/internal/pool"
 	"github.com/IrineSistiana/mosproxy/internal/verifrt"
 	"github.com/valyala/fasthttp"
 )
@@ -22,6 +23,7 @@ type vFastReq struct {
 	body    []byte
 	status  int
 	bodies  [][]byte
+	rawBody []byte // body stored by reference (SetBodyRaw): fasthttp reads it when it writes the response, after the handler returned
 	respCT  string
 	remote  net.Addr
 	uri     fasthttp.URI
@@ -57,6 +59,7 @@ func vFastStubs(f *vFastReq) {
 	verifrt.Redirect("(*github.com/valyala/fasthttp.RequestCtx).SetBody", func(_ *fasthttp.RequestCtx, b []byte) {
 		f.bodies = append(f.bodies, append([]byte(nil), b...))
 	})
+	verifrt.Redirect("(*github.com/valyala/fasthttp.Response).SetBodyRaw", func(_ *fasthttp.Response, b []byte) { f.rawBody = b })
 	verifrt.Redirect("(*github.com/valyala/fasthttp.ResponseHeader).Add", func(_ *fasthttp.ResponseHeader, k, v string) {
 		if k == "Content-Type" {
 			f.respCT = v
@@ -106,6 +109,15 @@ func VerifH_C03_FastHTTP() {
 	vFastStubs(f)
 	var ctx fasthttp.RequestCtx
 	h.HandleFastHTTP(&ctx)
+	// the server writes the response after the handler has returned; meanwhile other requests use the buffer pool
+	if f.rawBody != nil {
+		scratch := pool.GetBuf(len(f.rawBody))
+		for i := range scratch {
+			scratch[i] = 0xEE
+		}
+		f.bodies = append(f.bodies, append([]byte(nil), f.rawBody...))
+		pool.ReleaseBuf(scratch)
+	}
 	verifrt.Reach("served")
 	switch defect {
 	case 0:
